@@ -27,7 +27,7 @@ func zetaS() []float64 {
 		-0.5, -1, -1.5, -2, -2.5, -3, -4, -10.5, -19.5, -20, -20.5, -21, -25.5, -100, -100.5, -101, -169.5, -170.5, -171.5, -199.5,
 		-250.5, -255.5, -259.5, -260.5, -261.5, -263.5, -270.5, -300.5, -1e3 - 0.5, -1e6 - 0.5, -1e15,
 		// witnesses first seen in sweeps
-		-65.62470378569681, -145.70640125994277, -259.7472125512994, -259.92163356713473, -260.14267407188106,
+		-65.62470378569681, -145.70640125994277, -259.7472125512994, -259.92163356713473, -260.14267407188106, -187.72490361896342, -260.00695976385066,
 	}
 	return xs
 }
